@@ -108,7 +108,7 @@ def check_reader(ctx, oid="C05.2"):
                 ev.bind = {first: v, tm.length(buf): L}
                 if x is not None:
                     ev.bind[val] = x
-                kind, got = rules.decided_outcome(ev.run(fi))
+                kind, got = rules.strict_outcome(ev.run(fi))
                 okv = kind == "return" and isinstance(got, (tuple, list)) and len(got) == 2 and (got[0] == (x if w else v) or tm.veq(got[0], val if w else v))
                 R.check(oid, "DECISION-TABLE", fi, "first byte %d, %s, %d bytes in the buffer: accepted" % (v, ("value %#x" % x) if x is not None else "1-byte form", L), okv,
                         "CompactSize reader refuses or misreads a well-formed encoding: first byte %d, %s, buffer of %d bytes -> %s %s" % (
